@@ -333,6 +333,15 @@ func (h *hist) validAction(kind string) *action {
 		if len(c) == 0 {
 			return nil
 		}
+		var again []*nodeT // keys black-listed before whose penalty record was not drained
+		for _, nd := range c {
+			if s.apen[nd.pub] > 0 {
+				again = append(again, nd)
+			}
+		}
+		if len(again) > 0 && g.pct("regAgain") < 80 {
+			c = again
+		}
 		nd := c[g.n("regNode", len(c))]
 		owner := nd.defOwner
 		if g.pct("regOwnerAlt") < 15 {
@@ -402,6 +411,15 @@ func (h *hist) validAction(kind string) *action {
 					}
 				}
 			}
+		}
+		var onAgain []pair
+		for _, x := range c {
+			if s.apen[x.pub] > 0 {
+				onAgain = append(onAgain, x)
+			}
+		}
+		if len(onAgain) > 0 && g.pct("authAgain") < 50 {
+			c, onCand, topUp, topUpCand = onAgain, nil, nil, nil
 		}
 		switch r := g.pct("authGoal"); {
 		case r < 40 && len(topUpCand) > 0:
@@ -659,6 +677,15 @@ func (h *hist) validAction(kind string) *action {
 					closed = append(closed, q)
 				}
 			}
+			var again []*peerItem
+			for _, q := range closed {
+				if s.apen[q.pub] > 0 {
+					again = append(again, q)
+				}
+			}
+			if len(again) > 0 {
+				closed = again
+			}
 			if len(closed) > 0 {
 				p = closed[g.n("attrClosed", len(closed))]
 			}
@@ -713,7 +740,16 @@ func (h *hist) validAction(kind string) *action {
 				}
 			}
 		}
-		if len(staked) > 0 && g.pct("blackStaked") < 65 {
+		var again []*peerItem // keys living their second life with the old penalty record still in place
+		for _, p := range c {
+			if s.apen[p.pub] > 0 && p.status != stBlack {
+				again = append(again, p)
+			}
+		}
+		switch r := g.pct("blackGoal"); {
+		case r < 60 && len(again) > 0:
+			c = again
+		case r < 85 && len(staked) > 0:
 			c = staked
 		}
 		p := c[g.n("blackNode", len(c))]
@@ -733,15 +769,37 @@ func (h *hist) validAction(kind string) *action {
 		if len(s.black) == 0 {
 			return nil
 		}
-		pub := s.black[g.n("whiteNode", len(s.black))]
+		bl := s.black
+		var again []string
+		for _, pub := range bl {
+			if s.apen[pub] > 0 {
+				again = append(again, pub)
+			}
+		}
+		if len(again) > 0 && g.pct("whiteAgain") < 80 {
+			bl = again
+		}
+		pub := bl[g.n("whiteNode", len(bl))]
 		q := &gov.WhiteNodeParam{PeerPubkey: pub}
-		return h.mk(kind, gov.WHITE_NODE, ser(q.Serialization), h.sigs(w.admin), true, "%s", w.nodeName(pub))
+		a := h.mk(kind, gov.WHITE_NODE, ser(q.Serialization), h.sigs(w.admin), true, "%s", w.nodeName(pub))
+		a.mod = &modelOp{op: "white", pubs: lowerAll([]string{pub})} // no effect on the release model; coverage only
+		return a
 
 	case "transferPenalty":
 		if len(s.penaltyKeys) == 0 {
 			return nil
 		}
-		pub := s.penaltyKeys[g.n("penNode", len(s.penaltyKeys))]
+		pk := s.penaltyKeys
+		var plain []string
+		for _, pub := range pk {
+			if s.apen[pub] == 0 {
+				plain = append(plain, pub)
+			}
+		}
+		if len(plain) > 0 && g.pct("penPlain") < 60 {
+			pk = plain
+		}
+		pub := pk[g.n("penNode", len(pk))]
 		q := &gov.TransferPenaltyParam{PeerPubkey: pub, Address: w.treasury}
 		return h.mk(kind, gov.TRANSFER_PENALTY, ser(q.Serialization), h.sigs(w.admin), true, "%s,%s", w.nodeName(pub), w.name(w.treasury))
 
@@ -885,7 +943,9 @@ func (h *hist) arbitraryAction(kind string) *action {
 		return h.mkBlack(pubs, h.anySigs(w.admin), false)
 	case "whiteNode":
 		q := &gov.WhiteNodeParam{PeerPubkey: h.anyPub("arbPub")}
-		return h.mk(kind, gov.WHITE_NODE, ser(q.Serialization), h.anySigs(w.admin), false, "%s", w.nodeName(q.PeerPubkey))
+		a := h.mk(kind, gov.WHITE_NODE, ser(q.Serialization), h.anySigs(w.admin), false, "%s", w.nodeName(q.PeerPubkey))
+		a.mod = &modelOp{op: "white", pubs: lowerAll([]string{q.PeerPubkey})}
+		return a
 	case "transferPenalty":
 		q := &gov.TransferPenaltyParam{PeerPubkey: h.anyPub("arbPub"), Address: w.treasury}
 		return h.mk(kind, gov.TRANSFER_PENALTY, ser(q.Serialization), h.anySigs(w.admin), false, "%s,%s", w.nodeName(q.PeerPubkey), w.name(w.treasury))
@@ -945,6 +1005,33 @@ func (h *hist) weights() map[string]int {
 			top = true
 		}
 	}
+	// second life of a black-listed key: white-list -> register again -> open -> authorize -> black-list -> epoch change
+	for _, p := range s.pool {
+		if p.status == stBlack {
+			wt["commitDpos"] += 15 // a pending black-listing takes effect with the next epoch change
+			break
+		}
+	}
+	for _, pub := range s.undrained() {
+		p, in := s.pool[pub]
+		switch {
+		case !in && s.isBlack(pub):
+			wt["whiteNode"] += 30
+		case !in:
+			wt["registerCandidate"] += 30
+		case p.status == stBlack:
+			wt["commitDpos"] += 25
+		case !p.active():
+		case s.attr(pub).MaxAuthorize == 0:
+			wt["changeMaxAuthorization"] += 20
+			wt["blackNode"] += 5
+		case !s.othersStaked(p):
+			wt["authorizeForPeer"] += 20
+			wt["blackNode"] += 8
+		default:
+			wt["blackNode"] += 25
+		}
+	}
 	if topUpCand {
 		wt["authorizeForPeer"] *= 2
 	}
@@ -955,6 +1042,28 @@ func (h *hist) weights() map[string]int {
 		wt["withdraw"] *= 3
 	}
 	return wt
+}
+
+// undrained lists (sorted) the peers whose PenaltyStake record still holds authorizer penalties: black-listed once,
+// with authorizers, and not yet drained by transferPenalty. The record is keyed by the public key and must
+// accumulate when the same key is white-listed, registered again and black-listed again.
+func (s *snap) undrained() []string {
+	var out []string
+	for _, pub := range s.penaltyKeys {
+		if s.apen[pub] > 0 {
+			out = append(out, pub)
+		}
+	}
+	return out
+}
+
+func (s *snap) othersStaked(p *peerItem) bool {
+	for i := range s.auth {
+		if e := &s.auth[i]; e.pub == p.pub && e.addr != p.owner && e.staked()+e.wcons+e.wcand > 0 {
+			return true
+		}
+	}
+	return false
 }
 
 // next draws the next action.
